@@ -304,6 +304,13 @@ bool Instance::eval(const size_t argc, char* const* argv) {
         return false;
     }
     CScript::const_iterator it = script.begin();
+    const CScript::const_iterator prev_begincodehash = env->pbegincodehash;
+    // an OP_CODESEPARATOR among the operations must not leave pbegincodehash pointing into this temporary script:
+    // as the "next operation of the script" it marks the current position of the debugged script
+    struct RestoreCodeHash {
+        InterpreterEnv* e; CScript::const_iterator prev;
+        ~RestoreCodeHash() { if (e->pbegincodehash != prev) e->pbegincodehash = e->pc; }
+    } restore_codehash{env, prev_begincodehash};
     try {
         while (it != script.end()) {
             if (!StepScript(*env, it, &script)) {
